@@ -665,10 +665,11 @@ impl CommandHub {
             Ok(ResponseStatus::Ok | ResponseStatus::Failure)
         ) {
             self.server.in_flight.remove(&response.id);
-        }
-
-        if let Some(duration) = task.renew_timeout {
-            task.timeout = Some(Instant::now() + duration);
+            // only a final answer counts as progress: a worker that keeps sending
+            // processing notices has still not answered
+            if let Some(duration) = task.renew_timeout {
+                task.timeout = Some(Instant::now() + duration);
+            }
         }
 
         let client = &mut task
